@@ -1265,6 +1265,9 @@ impl Check for TreeCheck {
 
     fn spec(id: &str) -> Spec {
         let (pid, level, rule) = RULES.iter().find(|r| r.0 == id).copied().unwrap_or(RULES[0]);
+        // what all tree-engine generators share beyond the per-property description (DESIGN.md sections 5.2, 11)
+        const COMMON: &str = " Common to all tree-engine profiles: twelve denominations; scenario templates at the start of a history (self-administered contract that migrates itself, failed batch followed by queries, migration there and back after a new block, a family of contracts whose admin changes hands, a storm of 33-38 caught sub-message failures in one call, seven consecutive credits of one account, an account that sends all twelve denominations at once, unbondings that tie on their completion time); one node in forty rewrites 1-4 keys 66-300 times, one in twelve removes a key and puts a constant back; funds of 9-12 coins, data up to 70 000 bytes, labels up to 1 100 bytes, strings behind up to 300 blanks; batches may address the contract an earlier message of the same batch creates; after its writes every contract reads them back through get, scan and bounded range / range_keys / range_values in both orders (model-free)";
+        let rule: &'static str = Box::leak(format!("{}.{}", rule, COMMON).into_boxed_str());
         Spec {
             id: pid,
             level,
